@@ -158,6 +158,21 @@ class _Args(Native):
         self.__dict__.update(k)
 
 
+class _Target(str):
+    """args.arcfile: run_list wants a path object (suffix / parent / stem), run_test a name"""
+    suffix, stem, parent = ".7z", "a", "."
+
+
+class _DT(Native):
+    """a datetime stand-in for the listing's date columns (their text is not the subject)"""
+
+    def astimezone(self, eng, *a):
+        return self
+
+    def strftime(self, eng, fmt):
+        return "2020-01-01" if "Y" in fmt else "00:00:00"
+
+
 class _F(Native):
     def __enter__(self, eng):
         return self
@@ -211,7 +226,7 @@ def exit_status(func, point, exc):
     return r
 
 
-def test_real_archive(pattern, folders, opts):
+def test_real_archive(pattern, folders, opts, func="run_test"):
     """Cli.run_test with the REAL print_archiveinfo and the real SevenZipFile model on an intact archive: exit status 0"""
     import builtins
     import os
@@ -219,8 +234,8 @@ def test_real_archive(pattern, folders, opts):
     from vf.harness import extract as X
     from vf.harness import readcases as RC
 
-    r = ObResult(bounds="'t' on an intact reference-written archive of layout %s (sizes/CRCs symbolic), read from a file object "
-                        "as the command does; print_archiveinfo is NOT stubbed" % RC.shape_name(pattern, folders, opts))
+    r = ObResult(bounds="%s on an intact reference-written archive of layout %s (sizes/CRCs symbolic), opened as the command "
+                        "does; the printing code is NOT stubbed" % (func, RC.shape_name(pattern, folders, opts)))
     eng = RC.mk_engine(unroll=1, modules=[CLI, "py7zr.compressor"])
     sym = RC.symbols(eng, pattern)
 
@@ -233,11 +248,15 @@ def test_real_archive(pattern, folders, opts):
         z.attrs["filename"] = "a.7z"
         e.models.reg(builtins.open, lambda e_, *a, **k: _F())
         e.models.reg(os.stat, lambda e_, p_: _St())
+        e.overrides[("py7zr.helpers", "filetime_to_dt")] = lambda e_, ft: _DT()
         e.overrides[("py7zr.py7zr", "is_7zfile")] = lambda e_, t: True
         e.class_models[("py7zr.py7zr", "SevenZipFile")] = lambda e_, *a, **k: z
         c = _cli(e)
         try:
-            rc = e.method(c, "run_test", _Args(arcfile="a.7z", verbose=False, password=False, odir=None))
+            if func == "run_list":
+                rc = e.method(c, "_run_list", "a.7z", True)     # (run_list only adds the multi-volume suffix dispatch)
+            else:
+                rc = e.method(c, func, _Args(arcfile="a.7z", verbose=False, password=False, odir=None))
         except ModelRaise as ex:
             return dict(escaped="%s%s" % (ex.name, str(ex.eargs)[:80]))
         finally:
@@ -249,12 +268,12 @@ def test_real_archive(pattern, folders, opts):
 
     decide(eng, harness, post, RC.inputs_of(sym, pattern, folders), r, describe=lambda o: str(o))
     _cex(r, "test_real_archive", lambda w: dict(module="vf.props.c19", func="replay_test_real", kwargs=dict(
-        pattern=pattern, folders=folders, opts=opts, witness={k: int(v) for k, v in w.items() if isinstance(v, int)})),
-         signature=lambda w: {"obligation": "test_real_archive", "no_streams": not folders})
+        pattern=pattern, folders=folders, opts=opts, func=func, witness={k: int(v) for k, v in w.items() if isinstance(v, int)})),
+         signature=lambda w: {"obligation": "test_real_archive", "func": func, "no_streams": not folders})
     return r
 
 
-def replay_test_real(pattern, folders, opts, witness):
+def replay_test_real(pattern, folders, opts, witness, func="run_test"):
     """the real command line on the concrete counterpart"""
     import os
     import shutil
@@ -270,8 +289,9 @@ def replay_test_real(pattern, folders, opts, witness):
         p = os.path.join(d, "a.7z")
         open(p, "wb").write(img)
         env = dict(os.environ)
-        out = subprocess.run([sys.executable, "-m", "py7zr", "t", p], capture_output=True, text=True, timeout=120, env=env)
-        return out.returncode != 0, "py7zr t <intact archive %s> exits %d: %s" % (pattern or "(empty)", out.returncode,
+        cmd = ["t", p] if func == "run_test" else ["l", "--verbose", p]
+        out = subprocess.run([sys.executable, "-m", "py7zr"] + cmd, capture_output=True, text=True, timeout=120, env=env)
+        return out.returncode != 0, "py7zr %s <intact archive %s> exits %d: %s" % (cmd[0], pattern or "(empty)", out.returncode,
                                                                                   (out.stderr.strip().splitlines() or [""])[-1][:200])
     finally:
         shutil.rmtree(d, ignore_errors=True)
@@ -353,10 +373,12 @@ def units(tier):
                 if tier == "quick" and ex not in (None, "Bad7zFile", "CrcError", "PasswordRequired", "LZMAError", "OSError"):
                     continue
                 us.append(Unit("2.exit_status[%s,%s,%s]" % (func, pt, ex), M, "exit_status", dict(func=func, point=pt, exc=ex), 600))
-    for (p_, f_, o_) in [("f", [1], {}), ("ff", [1, 1], {}), ("fdf", [2], {}), ("d", [], {}), ("", [], {})]:
+    for (p_, f_, o_) in [("f", [1], {}), ("ff", [1, 1], {}), ("fdf", [2], {}), ("d", [], {}), ("", [], {}), ("fd", [1], {"times": "none", "attrs": "none"})]:
         from vf.harness import readcases as RC
 
         us.append(Unit("4.test_real_archive[%s]" % RC.shape_name(p_, f_, o_), M, "test_real_archive", dict(pattern=p_, folders=f_, opts=o_), 900))
+        us.append(Unit("4.list_real_archive[%s]" % RC.shape_name(p_, f_, o_), M, "test_real_archive",
+                       dict(pattern=p_, folders=f_, opts=o_, func="run_list"), 900))
     # (2) ties the exit status to the library's verdict; that the verdict itself tells the truth about damaged data is C04 –
     # the part the command relies on is re-decided here: 't' = test() + testzip() on a file object, 'x' = extractall by path
     from vf.props import c04
